@@ -492,6 +492,32 @@ def cookies(chk, prog, cfg):
                 chk.ob("R7.cookie_lookup", g1.path, "a cookie matches only if its name == the requested name (whole-string equality)", ok, why, where=f"{cb.file}:{cb.line}", cfg=cfg)
 
 
+def body_bytes(chk, prog, cfg):
+    """R9.body_bytes: a body is arbitrary bytes.  The request serialiser appends `content` as the bytes it holds: nothing on the way from the
+    field to the output decodes it as text (from_utf8_lossy substitutes U+FFFD for every byte that is not UTF-8, while Content-Length keeps
+    the original length), and the output is a byte vector, not a String."""
+    fs = prog.impl_fn(r"^<std::vec::Vec<u8> as std::convert::From<humphrey::http::request::Request>>$", "from")
+    chk.floor(f"From<Request> for Vec<u8> [{cfg}]", len(fs), 1)
+    if not fs:
+        return
+    b = prog.bodies[fs[0]]
+    st = [x["name"] for x in prog.structs.get("humphrey::http::request::Request", {}).get("fields", [])]
+    ci = st.index("content") if "content" in st else None
+    bad = []
+    n = 0
+    for bb in shared.family(prog, b.path):
+        for blk, t in bb.calls():
+            n += 1
+            if core.call_matches(t, r"(from_utf8_lossy|from_utf8_unchecked|String::from_utf8|str::from_utf8|from_utf8)$"):
+                args = [describe(prog, bb, a) for a in t["args"]]
+                if ci is None or any(desc_contains(a, lambda y: y[0] == "field" and y[2] == ci) or desc_contains(a, lambda y: y[0] == "param" and "content" in str(y[-1])) for a in args):
+                    bad.append((bb, blk, t["callee"]))
+    chk.ob("R9.body_bytes", b.path, "the body is appended as bytes (never decoded as text on the way out)", not bad,
+           f"{[core.short(c) for _, _, c in bad]} is applied to the body: bytes that are not valid UTF-8 are replaced, so a binary body relayed upstream is not the body received "
+           "(and no longer matches Content-Length)", where=bad[0][0].where(bad[0][1]) if bad else "", cfg=cfg)
+    chk.floor(f"calls examined in the request serialiser [{cfg}]", n, 5)
+
+
 def address(chk, prog, cfg):
     fn = "humphrey::http::address::Address::from_headers"
     b = prog.bodies.get(fn)
@@ -566,5 +592,6 @@ def run(chk):
         shared.target_split(chk, prog, "R8.target_split", cfg=cfg)
         shared.header_line_split(chk, prog, "R8.header_split", "humphrey::http::request::Request::from_stream_inner", cfg=cfg)
         reads(chk, prog, cfg)
+        body_bytes(chk, prog, cfg)
         address(chk, prog, cfg)
         cookies(chk, prog, cfg)
